@@ -388,7 +388,8 @@ def _daemon_strategy():
 
     raw = st.one_of(
         st.binary(max_size=24).map(lambda b: b.decode('latin-1')),
-        st.sampled_from(['', ' ', '\n', '{', '[1', '{"id": 1', 'null ',
+        st.sampled_from(['[' * 2000, '{"a":' * 1500, '[' * 30 + ']' * 30,
+                         '', ' ', '\n', '{', '[1', '{"id": 1', 'null ',
                          '  {"command": "list"}  ', '\x00', '"',
                          '{"command": "list", "id": "q"} trailing']),
         st.text(alphabet='{}[]":, \n\tnulltruefalse0123456789abc\\',
